@@ -383,6 +383,12 @@ impl Runtime for Sched {
         cur().is_some()
     }
 
+    fn spurious_failure(&self) -> bool {
+        // a data choice: the default answer is "no"; the explorer enumerates "yes" within its
+        // budget of deviations
+        choose(2) == 1
+    }
+
     fn spawn(&self, name: Option<String>, body: Box<dyn FnOnce() + Send + 'static>) -> usize {
         spawn_model(name.unwrap_or_default(), body)
     }
